@@ -94,7 +94,7 @@ func relCase(reA, reB *regexp2.Regexp, s []int) RelCase {
 	}
 	for st := 0; st <= len(in); st++ {
 		cur := st
-		regexp2.VerifOnFind = func(r *regexp2.Runner, from, to int, found bool) {
+		regexp2.SetVerifOnFind(func(r *regexp2.Runner, from, to int, found bool) {
 			if r.VerifRegexp() != reA || len(c.Skips) > 400 {
 				return
 			}
@@ -103,9 +103,9 @@ func relCase(reA, reB *regexp2.Regexp, s []int) RelCase {
 				f = 1
 			}
 			c.Skips = append(c.Skips, [4]int{cur, from, to, f})
-		}
+		})
 		c.A = append(c.A, findRunesAt(reA, in, st))
-		regexp2.VerifOnFind = nil
+		regexp2.SetVerifOnFind(nil)
 		c.B = append(c.B, findRunesAt(reB, in, st))
 	}
 	return c
